@@ -91,9 +91,6 @@ theorem C12_per_element (cfg : Config) (j : Json) (batch : BatchRequest) (ctx : 
     (dispatch cfg (.ok j) ctx).2 = (batch.requests.map (fun r => (cfg.handler r ctx).2)).flatten := by
   simp only [dispatch, hj, hb, hsz, runBatch_eq]
   simp only [Bool.false_eq_true, ↓reduceIte]
-  split
-  · rfl
-  · split <;> rfl
 
 /-! ### Error handlers -/
 
